@@ -324,6 +324,22 @@ def check_filenames(maxlen):
             distinct.add(disp)
             for pmsg in header_problems(disp, name, ext):
                 bad.append((name, pmsg))
+    # every single printable character of the Basic Multilingual Plane (and a few astral ones), alone and inside a word:
+    # compatibility characters may only turn into separators during ASCII folding
+    import unicodedata
+    chars = [chr(c) for c in range(0x20, 0x10000) if not (0xD800 <= c <= 0xDFFF) and unicodedata.category(chr(c))[0] != "C"]
+    chars += ["\U0001F600", "\U0001D7D8", "\U0001F100", "\U0002F800"]
+    for ch in chars:
+        for name in (ch, "a" + ch + "b", ch + ch):
+            n += 1
+            try:
+                disp = nserve.get_content_disposition(name, "pdf")
+            except Exception as exc:
+                bad.append((name, "raised %s: %s" % (type(exc).__name__, exc)))
+                continue
+            distinct.add(disp)
+            for pmsg in header_problems(disp, name, "pdf"):
+                bad.append((name, pmsg))
     return n, len(distinct), bad
 
 
